@@ -9,6 +9,7 @@ import (
 	"strings"
 
 	cedar "github.com/cedar-policy/cedar-go"
+	cedarast "github.com/cedar-policy/cedar-go/ast"
 	"github.com/cedar-policy/cedar-go/types"
 	xast "github.com/cedar-policy/cedar-go/x/exp/ast"
 )
@@ -262,6 +263,8 @@ func exprFromSx(s *Sx) xast.IsNode {
 			els = append(els, xast.RecordElementNode{Key: types.String(kv.List[0].Str()), Value: exprFromSx(kv.List[1])})
 		}
 		return xast.NodeTypeRecord{Elements: els}
+	case "perr":
+		return xast.NodeTypeExtensionCall{Name: "__cedar::partialError", Args: []xast.IsNode{xast.NodeValue{Value: types.String(classMessage(s.List[1].Atom))}}}
 	case "call":
 		args := make([]xast.IsNode, 0, len(s.List)-2)
 		for _, x := range s.List[2:] {
@@ -377,4 +380,29 @@ func errClass(err error) string {
 		return "entity"
 	}
 	return "ext"
+}
+
+type cedarAST = cedarast.Policy
+
+// classMessage is a representative error message of each class (for __cedar::partialError nodes).
+func classMessage(class string) string {
+	switch class {
+	case "type":
+		return "type error: expected bool, got long"
+	case "overflow":
+		return "integer overflow while attempting to add"
+	case "attr":
+		return "record does not have the attribute `x`"
+	case "tag":
+		return "`A::\"b\"` does not have the tag `x`"
+	case "entity":
+		return "entity `A::\"b\"` does not exist"
+	case "unknownfn":
+		return "function does not exist: f"
+	case "arity":
+		return "wrong number of arguments provided to extension function: f"
+	case "unspecified":
+		return "cannot access attribute `x` of unspecified entity"
+	}
+	return "error parsing decimal value: x"
 }
